@@ -249,8 +249,39 @@ def check_rebuild(rng):
         shutil.rmtree(scratch, ignore_errors=True)
 
 
+def check_symlinked_input(rng):
+    """the file handed to the standalone generator is a symlink: its own directory is the root, not the target's"""
+    out = []
+    scratch = gen_site.scratch_root()
+    try:
+        book, shared = scratch / "book", scratch / "shared"
+        book.mkdir()
+        shared.mkdir()
+        (shared / "soup.md").write_text("# Soup for 2\n\n    1 x\n\n![I](photo.jpg)\n")
+        (shared / "only.md").write_text("# Only for 2\n\n    1 x\n\n![I](private.jpg)\n")
+        (shared / "photo.jpg").write_bytes(CANARY + b" shared photo")
+        (shared / "private.jpg").write_bytes(CANARY + b" private")
+        (book / "photo.jpg").write_bytes(b"book photo bytes")
+        os.symlink(shared / "soup.md", book / "soup.md")
+        os.symlink(shared / "only.md", book / "only.md")
+        page = generate_standalone_page(book / "soup.md", embed_local_links=True)
+        if base64.b64encode(b"book photo bytes").decode() not in page or base64.b64encode(CANARY)[:20].decode() in page:
+            out.append(("C16:standalone-embeds-file-from-outside-its-root", "book/soup.md -> ../shared/soup.md embedded shared/photo.jpg instead of book/photo.jpg"))
+        try:
+            page = generate_standalone_page(book / "only.md", embed_local_links=True)
+            out.append(("C16:standalone-embeds-file-from-outside-its-root", "book/only.md links private.jpg which exists only next to the symlink's target: no error raised"))
+        except StaticSiteError:
+            pass
+        return out
+    finally:
+        shutil.rmtree(scratch, ignore_errors=True)
+
+
 def oracle(run):
     rng = run.rng
+    run.case(("oracle-symlinked-input",), True, kind="symlinked-input")
+    for sig, detail in check_symlinked_input(rng):
+        run.violate(sig, detail, {"symlinked_input": True})
     run.case(("oracle-rebuild",), True, kind="rebuild")
     for sig, detail in check_rebuild(rng):
         run.violate(sig, detail, {"rebuild": True})
@@ -270,6 +301,11 @@ def oracle(run):
 
 def replay(run, obj):
     import random
+    if obj["replay"].get("symlinked_input"):
+        res = check_symlinked_input(random.Random(0))
+        for x in res:
+            print(*x)
+        return bool(res)
     if obj["replay"].get("rebuild"):
         res = check_rebuild(random.Random(0))
         for x in res:
